@@ -160,8 +160,9 @@ def gen_workload(rng, profile=None, kinds=('dna', 'rna', 'protein'), weights=Non
             n, L = rng.randint(600, 2200), rng.randint(15, 60)
             shape = rng.choice(['clusters', 'balanced', 'caterpillar'])
         else:
-            n, L = rng.randint(3, 12), rng.randint(2500, 6000)
+            n, L = rng.randint(3, 8), rng.randint(2000, 4000)
             psub = rng.choice([0.02, 0.1]); pindel = rng.choice([0.0, 0.01])
+            shape = rng.choice(['star', 'balanced', 'caterpillar'])      # related sequences: 'random' would make lengths up to 1.5 L
     else:  # dups
         n, L = rng.randint(3, 30), rng.randint(5, 150)
     seqs = family(rng, alpha, n, L, shape, psub, pindel)
